@@ -23,7 +23,8 @@ def setup(argv):
     from simkit.cli import factory
     for c in man["checks"]:
         chk = factory(c["property_id"])
-        case = chk.gen_case(1, "quick")
+        from simkit.runner import make_case
+        _, case = make_case(chk, 1, 0, "quick")
         r1 = chk.run_case(case)
         r2 = chk.run_case(json.loads(json.dumps(case)))
         if r1["digest"] != r2["digest"]:
@@ -45,7 +46,7 @@ def determinism(argv):
     ap.add_argument("--child", action="store_true")
     a = ap.parse_args(argv)
     from simkit.cli import factory
-    from simkit.runner import derive_seed
+    from simkit.runner import derive_seed, make_case
     man = json.load(open(os.path.join(VERIF, "MANIFEST.json")))
     props = a.props or [c["property_id"] for c in man["checks"]]
     out = {}
@@ -53,7 +54,7 @@ def determinism(argv):
         chk = factory(p)
         ds = []
         for i in range(a.n):
-            case = chk.gen_case(derive_seed(777, p, i), "quick")
+            _, case = make_case(chk, 777, i, "quick")
             d1 = chk.run_case(case)["digest"]
             if not a.child:
                 d2 = chk.run_case(json.loads(json.dumps(case)))["digest"]
